@@ -86,13 +86,24 @@ func c08One(env *Env, m *wvlib.Model, c *C08Case) {
 	perFile := map[int64]int64{}
 	cur := int64(-1)
 	sumData := int64(0)
+	hidden := int64(0)
 	for _, mm := range msgs {
 		if mm.Kind == "H" {
 			cur = mm.B
 		} else if mm.Kind == "O" && mm.A == 1 {
 			perFile[cur] += int64(len(mm.Data))
 			sumData += int64(len(mm.Data))
+		} else if mm.Kind == "O" && len(mm.Data) > 0 {
+			// file data travelling in a message that is not a DATA op (a block range or an end marker with a payload)
+			hidden += int64(len(mm.Data))
 		}
+	}
+	if hidden > 0 {
+		env.R.Violate("file-data-outside-data-ops", fmt.Sprintf("%d bytes of payload are attached to non-DATA ops (the counters and the op structure do not show them, the patch carries them)", hidden), c)
+	}
+	// the patch as a whole: everything beyond the fresh bytes is framing (containers, headers, ops), a few bytes per message
+	if over := int64(len(ev.Res.Patch)) - sumData; over > 4096+int64(len(msgs))*40+containerBytes(ev.Res) {
+		env.R.Violate("patch-larger-than-its-contents", fmt.Sprintf("patch has %d bytes for %d fresh bytes and %d messages", len(ev.Res.Patch), sumData, len(msgs)), c)
 	}
 	if sumData != ev.Res.Fresh {
 		env.R.Violate("fresh-counter-wrong", fmt.Sprintf("FreshBytes=%d but the patch carries %d data bytes", ev.Res.Fresh, sumData), c)
@@ -182,4 +193,9 @@ func runC08(env *Env) {
 		}
 	})
 	stopModels(env, models)
+}
+
+// containerBytes: encoded size of the two containers of a patch.
+func containerBytes(res *DiffResult) int64 {
+	return frameLen(res.Old) + frameLen(res.New)
 }
